@@ -1,8 +1,198 @@
 import TrustVerif.Lemmas.C09
 
+/-!
+# C09 — restart semantics: warm keeps exactly RETAIN data, cold equals a fresh start
+
+Property theorems only.  `Model/C09.lean` transcribes `Runtime::restart`, the storage, instance
+creation, the retain snapshot and the build sequence; `WF` (Lemmas) is what the compiler guarantees
+about names.  Clauses the code violates come as `c09_counterexample_*` (concrete witness, replayed on
+the real runtime by the harness) and `*_partial` (true under an explicit guard).
+-/
 namespace TrustVerif.C09
 
-/-- placeholder while the pipeline is brought up -/
-theorem c09_placeholder : retainOnWarm .retain = true := rfl
+/-! ## Warm restart: exactly the RETAIN / PERSISTENT variables keep their value -/
+
+/-- **Warm clause, globals, kept.**  After `restart(Warm)` every declared global whose policy is
+RETAIN or PERSISTENT has the value it had before the restart (whatever its type: a retained
+FB-typed global keeps its instance). -/
+theorem c09_warm_globals_kept (rt rt' : Runtime) (hwf : WF rt) (h : restart .warm rt = .ok rt')
+    (m : GlobalMeta) (hm : m ∈ rt.globalsMeta) (hr : retainOnWarm m.retain = true)
+    (v : Val) (hv : rt.storage.getGlobal m.name = some v) :
+    rt'.storage.getGlobal m.name = some v := by
+  obtain ⟨s1, s2, h1, _, _, _, hg⟩ := restart_getGlobal .warm rt rt' hwf h
+  obtain ⟨_, _, t3⟩ := resetGlobals_spec rt.fbs _ _ rt.globalsMeta rt.storage s1 h1 hwf.globalsNodup
+  have hp := t3 m hm
+  unfold GlobalPost at hp
+  rw [aget_retainedOf] at hp
+  simp only [Mode.isWarm, hr, Bool.and_self, if_true, retainedVal_of_mem _ _ m hm hr, hv] at hp
+  rw [hg m hm]; exact hp
+
+/-- **Warm clause, globals, re-initialised.**  Every other declared global (NON_RETAIN or
+unqualified) has its declared initial value after `restart(Warm)`. -/
+theorem c09_warm_globals_reset (rt rt' : Runtime) (hwf : WF rt) (h : restart .warm rt = .ok rt')
+    (m : GlobalMeta) (hm : m ∈ rt.globalsMeta) (hr : retainOnWarm m.retain = false)
+    (v0 : Val) (hi : m.init = .value v0) :
+    rt'.storage.getGlobal m.name = some v0 := by
+  obtain ⟨s1, s2, h1, _, _, _, hg⟩ := restart_getGlobal .warm rt rt' hwf h
+  obtain ⟨_, _, t3⟩ := resetGlobals_spec rt.fbs _ _ rt.globalsMeta rt.storage s1 h1 hwf.globalsNodup
+  have hp := t3 m hm
+  unfold GlobalPost at hp
+  simp only [hr, Bool.and_false, Bool.false_eq_true, if_false, hi] at hp
+  rw [hg m hm]; exact hp
+
+/-- **Cold clause, globals.**  After `restart(Cold)` every declared global has its declared
+initial value, whatever its qualifier. -/
+theorem c09_cold_globals (rt rt' : Runtime) (hwf : WF rt) (h : restart .cold rt = .ok rt')
+    (m : GlobalMeta) (hm : m ∈ rt.globalsMeta) (v0 : Val) (hi : m.init = .value v0) :
+    rt'.storage.getGlobal m.name = some v0 := by
+  obtain ⟨s1, s2, h1, _, _, _, hg⟩ := restart_getGlobal .cold rt rt' hwf h
+  obtain ⟨_, _, t3⟩ := resetGlobals_spec rt.fbs _ _ rt.globalsMeta rt.storage s1 h1 hwf.globalsNodup
+  have hp := t3 m hm
+  unfold GlobalPost at hp
+  simp only [Mode.isWarm, Bool.false_and, Bool.false_eq_true, if_false, hi] at hp
+  rw [hg m hm]; exact hp
+
+/-- **Program variables after any restart** (the common core of the warm and cold clauses for
+program-level variables).  Variable `d` of program `p` in the LIVE instance has, after
+`restart mode`: its pre-restart value if the mode is warm, its policy is RETAIN/PERSISTENT and
+that value exists and is retainable (`value_is_retainable`: no FB instance / reference inside);
+its declared initial value otherwise. -/
+theorem c09_program_var (mode : Mode) (rt rt' : Runtime) (hwf : WF rt)
+    (h : restart mode rt = .ok rt') (p : ProgDef) (hp : p ∈ rt.programs)
+    (d : VarDef) (hd : d ∈ p.vars) (v0 : Val) (hi : d.init = .plain v0) :
+    rt'.progVar p.name d.name =
+      match (if mode.isWarm && retainOnWarm d.retain then
+               (rt.progVar p.name d.name).filter Val.retainable else none) with
+      | some v => some v
+      | none => some v0 := by
+  obtain ⟨s1, s2, h1, h2, h3, hg, _⟩ := restart_getGlobal mode rt rt' hwf h
+  obtain ⟨_, _, t3⟩ := recreatePrograms_spec rt.fbs rt.programs s1 s2 h2 hwf.progsNodup hwf.varsNodup
+  obtain ⟨id, hpost⟩ := t3 p hp
+  have hdist := recreatePrograms_distinct rt.fbs rt.programs s1 s2 h2 hwf.progsNodup hwf.varsNodup
+  -- the live instance after the restart
+  have hlive : rt'.storage.getGlobal p.name = some (.inst id) := by rw [hg]; exact hpost.1
+  have hinit : s2.getInstVar id d.name = some v0 := by
+    have := hpost.2.2.2.2 d hd; simpa [hi] using this
+  have hvar : rt'.progVar p.name d.name =
+      (restoreProgVars s2 (retainedPvOf mode rt)).getInstVar id d.name := by
+    unfold Runtime.progVar
+    rw [hlive]
+    simp only
+    rw [h3]; rfl
+  rw [hvar]
+  -- every collected triple that addresses (id, d.name) carries the old value of (p, d)
+  have triple : ∀ t, t ∈ retainedPvOf mode rt → s2.getGlobal t.1 = some (.inst id) → t.2.1 = d.name →
+      mode.isWarm = true ∧ retainOnWarm d.retain = true ∧
+      (rt.progVar p.name d.name) = some t.2.2 ∧ t.2.2.retainable = true := by
+    intro t ht hres hname
+    unfold retainedPvOf at ht
+    cases hw : mode.isWarm with
+    | false => simp [hw] at ht
+    | true =>
+      simp only [hw, if_true] at ht
+      obtain ⟨q, hq, oid, hold, hmem⟩ := (mem_collectRetainedProgVars _ _ _).1 ht
+      obtain ⟨hq1, d', hd', hn', hr', hv', hret'⟩ := (mem_collectProgVars _ _ _ _ _).1 hmem
+      -- `q` is `p`
+      have hqp : q.name = p.name := by
+        apply hdist q p id hq hp _ hpost.1
+        rw [← hq1]; exact hres
+      have hqeq : q = p := nodup_map_inj (·.name) _ hwf.progsNodup q p hq hp hqp
+      subst hqeq
+      have hdd : d' = d := nodup_map_inj (·.name) _ (hwf.varsNodup q hq) d' d hd' hd (hn'.trans hname)
+      subst hdd
+      refine ⟨rfl, hr', ?_, hret'⟩
+      unfold Runtime.progVar
+      rw [hold]
+      simp only
+      exact hv'
+  by_cases hex : ∃ t, t ∈ retainedPvOf mode rt ∧ s2.getGlobal t.1 = some (.inst id) ∧ t.2.1 = d.name
+  · obtain ⟨t, ht, hres, hname⟩ := hex
+    obtain ⟨hw, hr, hold, hret⟩ := triple t ht hres hname
+    rw [restoreProgVars_value id d.name t.2.2 _ s2 hpost.2.2.2.1]
+    · have : ∃ t, t ∈ retainedPvOf mode rt ∧ s2.getGlobal t.1 = some (.inst id) ∧ t.2.1 = d.name :=
+        ⟨t, ht, hres, hname⟩
+      simp only [this, if_true, hw, hr, Bool.and_self, hold, Option.filter, hret]
+    · intro t' ht' hres' hname'
+      obtain ⟨_, _, hold', _⟩ := triple t' ht' hres' hname'
+      have := hold'.symm.trans hold
+      injection this
+  · rw [restoreProgVars_value id d.name v0 _ s2 hpost.2.2.2.1]
+    · simp only [hex, if_false, hinit]
+      -- nothing was collected: either cold, not retained, no old value, or not retainable
+      cases hw : mode.isWarm with
+      | false => simp
+      | true =>
+        cases hr : retainOnWarm d.retain with
+        | false => simp
+        | true =>
+          simp only [Bool.and_self, if_true]
+          cases hold : rt.progVar p.name d.name with
+          | none => simp [Option.filter]
+          | some v =>
+            by_cases hret : v.retainable = true
+            · exfalso
+              apply hex
+              -- the triple exists
+              unfold Runtime.progVar at hold
+              cases hgo : rt.storage.getGlobal p.name with
+              | none => rw [hgo] at hold; cases hold
+              | some w =>
+                rw [hgo] at hold
+                cases w with
+                | inst oid =>
+                  simp only at hold
+                  refine ⟨(p.name, d.name, v), ?_, hpost.1, rfl⟩
+                  unfold retainedPvOf
+                  simp only [hw, if_true]
+                  apply (mem_collectRetainedProgVars _ _ _).2
+                  refine ⟨p, hp, oid, hgo, ?_⟩
+                  apply (mem_collectProgVars _ _ _ _ _).2
+                  exact ⟨rfl, d, hd, rfl, hr, hold, hret⟩
+                | num _ _ => cases hold
+                | str _ _ => cases hold
+                | arr _ _ => cases hold
+                | struct _ => cases hold
+                | ref => cases hold
+                | null => cases hold
+            · simp [Option.filter, hret]
+    · intro t' ht' hres' hname'
+      exact absurd ⟨t', ht', hres', hname'⟩ hex
+
+/-- **Warm clause, program variables, kept.** -/
+theorem c09_warm_program_vars_kept (rt rt' : Runtime) (hwf : WF rt) (h : restart .warm rt = .ok rt')
+    (p : ProgDef) (hp : p ∈ rt.programs) (d : VarDef) (hd : d ∈ p.vars) (v0 : Val)
+    (hi : d.init = .plain v0) (hr : retainOnWarm d.retain = true)
+    (v : Val) (hv : rt.progVar p.name d.name = some v) (hret : v.retainable = true) :
+    rt'.progVar p.name d.name = some v := by
+  rw [c09_program_var .warm rt rt' hwf h p hp d hd v0 hi]
+  simp [Mode.isWarm, hr, hv, Option.filter, hret]
+
+/-- **Warm clause, program variables, re-initialised.** -/
+theorem c09_warm_program_vars_reset (rt rt' : Runtime) (hwf : WF rt) (h : restart .warm rt = .ok rt')
+    (p : ProgDef) (hp : p ∈ rt.programs) (d : VarDef) (hd : d ∈ p.vars) (v0 : Val)
+    (hi : d.init = .plain v0) (hr : retainOnWarm d.retain = false) :
+    rt'.progVar p.name d.name = some v0 := by
+  rw [c09_program_var .warm rt rt' hwf h p hp d hd v0 hi]
+  simp [hr]
+
+/-- **Cold clause, program variables.** -/
+theorem c09_cold_program_vars (rt rt' : Runtime) (hwf : WF rt) (h : restart .cold rt = .ok rt')
+    (p : ProgDef) (hp : p ∈ rt.programs) (d : VarDef) (hd : d ∈ p.vars) (v0 : Val)
+    (hi : d.init = .plain v0) :
+    rt'.progVar p.name d.name = some v0 := by
+  rw [c09_program_var .cold rt rt' hwf h p hp d hd v0 hi]
+  simp [Mode.isWarm]
+
+/-- **Reset clause.**  After any restart: time zero, fault latch cleared, cycle counter zero, no
+frames, every task state is `TaskState::new(0)`; declarations, I/O images and bindings, access
+bindings, task table and retain configuration are untouched. -/
+theorem c09_restart_resets (mode : Mode) (rt rt' : Runtime) (h : restart mode rt = .ok rt') :
+    rt'.time = 0 ∧ rt'.fault = none ∧ rt'.cycleCounter = 0 ∧ rt'.storage.frames = 0 ∧
+    rt'.taskState = rt.taskState.map (fun _ => newTaskState 0) ∧
+    rt'.globalsMeta = rt.globalsMeta ∧ rt'.fbs = rt.fbs ∧ rt'.programs = rt.programs ∧
+    rt'.tasks = rt.tasks ∧ rt'.io = rt.io ∧ rt'.access = rt.access ∧ rt'.retain = rt.retain := by
+  obtain ⟨s1, s2, _, _, h3⟩ := restart_decompose mode rt rt' h
+  subst h3
+  simp
 
 end TrustVerif.C09
